@@ -327,6 +327,18 @@ def big_graphs(ck, graphs, e2e_results=None):
                         problems.append("largest cycle size %d, expected %d" % (run["largest"], max([0] + [len(c) for c in spec])))
                     if {frozenset(x) for x in (run["groups"] or [])} != set(cyc):
                         problems.append("graph.CyclicGroups differs from the reported cycles")
+                    if run.get("core"):
+                        problems.append("CoreInfrastructure %s: no module can lie in two strongly connected components" % run["core"])
+                    # Dependencies of a cycle: one chain per import between two of its modules (findDependencyChains)
+                    inner = {}
+                    for a, b in {(a, b) for a, b in g["edges"] if a < 1000 and b < 1000 and a != b}:
+                        for c in cyc:
+                            if nm[a] in c and nm[b] in c:
+                                inner[c] = inner.get(c, 0) + 1
+                    for c, info in cyc.items():
+                        if set(cyc) == set(spec) and info.get("chains") != inner.get(c, 0):
+                            problems.append("cycle %s lists %s dependency chains, it has %d imports between its modules"
+                                            % (sorted(c), info.get("chains"), inner.get(c, 0)))
             if not problems and chk is not True:
                 problems.append("the proved checker check_sccs rejects the reported cycles")
             if problems:
@@ -365,12 +377,37 @@ def big_graphs(ck, graphs, e2e_results=None):
 # ----------------------------------------------------------------------------------------
 # end to end: generated Python projects through the command line
 # ----------------------------------------------------------------------------------------
+S_FIRST = "Consider introducing interfaces or abstract base classes to invert dependencies"
+S_LAST = ["Review your architecture to ensure proper layer separation (e.g., presentation \u2192 application \u2192 domain \u2192 infrastructure)",
+          "Consider using event-driven patterns to decouple tightly coupled modules"]
+
+
+def expected_suggestions(cycles):
+    """generateCycleBreakingSuggestions (system_analysis_service.go): a general hint, one line for each of the first three
+    cycles with at most four modules, two closing hints; nothing without cycles"""
+    if not cycles:
+        return []
+    out = [S_FIRST]
+    for c in cycles[:3]:
+        if c["size"] == 2:
+            out.append("Break cycle between %s and %s by introducing a third module or using dependency injection" % tuple(c["full"]))
+        elif c["size"] <= 4:
+            out.append("Cycle involving [%s] - identify the least coupled module and extract its dependencies" % " ".join(c["full"]))
+    return out + S_LAST
+
+
 def e2e_projects(ck, rng, count):
     graphs = []
     for k in range(count):
         n = rng.choice([3, 4, 5, 6, 8, 12])
         if k == 0:
             n, edges = 13, [(i, (i + 1) % 10) for i in range(10)] + [(10, 11), (11, 10), (12, 0), (3, 3)]
+        elif k == 1:
+            # five separate cycles of 2, 2, 3, 4 and 5 modules: more cycles than the suggestions go into
+            n, edges, pos = 17, [(16, 0)], 0
+            for size in (2, 2, 3, 4, 5):
+                edges += [(pos + i, pos + (i + 1) % size) for i in range(size)]
+                pos += size
         elif k % 2:
             n, edges = planted_graph(rng, n)
         else:
@@ -403,8 +440,19 @@ def e2e_projects(ck, rng, count):
             ck.broken_ties.append("e2e: %d modules generated, report has TotalModules=%s" % (n, total))
             continue
         short = lambda m: m.rsplit(".", 1)[-1]
-        cycles = [{"modules": [short(m) for m in c["Modules"]], "size": c["Size"], "severity": c["Severity"]}
+        cycles = [{"modules": [short(m) for m in c["Modules"]], "size": c["Size"], "severity": c["Severity"], "full": c["Modules"]}
                   for c in (cd.get("CircularDependencies") or [])]
+        sugg = cd.get("CycleBreakingSuggestions") or []
+        if sugg != expected_suggestions(cycles):
+            ck.violation("CycleBreakingSuggestions %s do not follow from the reported cycles (expected %s)" % (sugg, expected_suggestions(cycles)),
+                         {"kind": "e2e", "dir": d, "edges": edges})
+        if cd.get("CoreInfrastructure"):
+            ck.violation("CoreInfrastructure %s: no module can lie in two cycles" % cd.get("CoreInfrastructure"), {"kind": "e2e", "dir": d})
+        rank = {"critical": 4, "high": 3, "medium": 2, "low": 1}
+        keys = [(-rank.get(c["severity"], 0), -c["size"], c["full"][0] if c["full"] else "") for c in cycles]
+        if keys != sorted(keys):
+            ck.violation("cycles are not listed by severity, size and first module: %s" % [(c["severity"], c["size"], c["full"][:1]) for c in cycles],
+                         {"kind": "e2e", "dir": d, "edges": edges})
         run = {"cycles": cycles, "total_cycles": cd.get("TotalCycles", 0), "total_modules": cd.get("TotalModulesInCycles", 0),
                "has": cd.get("HasCircularDependencies", False)}
         summ = data.get("summary", {})
@@ -420,8 +468,60 @@ def e2e_projects(ck, rng, count):
                          {"kind": "e2e", "dir": d, "edges": edges})
         if (rc2 != 0) != (len(cycles) > 0):
             ck.violation("`pyscn check --select deps` exit code %d with %d cycles" % (rc2, len(cycles)), {"kind": "e2e", "dir": d})
+        # --max-cycles: the check fails iff there are more cycles than allowed; --allow-circular-deps never fails
+        if cycles and (k < 4 or k % 3 == 0):
+            nc = len(cycles)
+            for limit in (nc - 1, nc, nc + 1):
+                rc3, out3, err3 = lib.pyscn(["check", "--select", "deps", "--max-cycles", str(limit), "."], d)
+                if (rc3 != 0) != (nc > limit):
+                    ck.violation("`pyscn check --select deps --max-cycles %d` exit code %d with %d cycles" % (limit, rc3, nc),
+                                 {"kind": "e2e", "dir": d, "edges": edges})
+            rc4, out4, err4 = lib.pyscn(["check", "--select", "deps", "--allow-circular-deps", "."], d)
+            if rc4 != 0:
+                ck.violation("`pyscn check --select deps --allow-circular-deps` exit code %d" % rc4, {"kind": "e2e", "dir": d})
+        # the dependency part of a full `pyscn analyze` is the one of `--select deps`
+        if k in (1, 2):
+            rcf, full, errf = lib.analyze_json(d, [])
+            cdf = (((full or {}).get("system") or {}).get("DependencyAnalysis") or {}).get("CircularDependencies") if full else None
+            if cdf != cd and not (not cdf and not cd):
+                ck.violation("CircularDependencies of a full `pyscn analyze --json` differ from `--select deps`",
+                             {"kind": "e2e", "dir": d, "full": cdf, "select_deps": cd})
         graphs.append({"kind": "e2e", "n": n, "edges": edges, "names": names, "impl": [run], "dir": d})
     return graphs
+
+
+def namespace_cycle(ck):
+    """a cycle between two modules of a directory without __init__.py (PEP 420), imported with `from nsdir import m`"""
+    d = lib.fresh_dir("c11_e2e_ns")
+    os.makedirs(os.path.join(d, "nsdir"))
+    open(os.path.join(d, "requirements.txt"), "w").close()
+    with open(os.path.join(d, "nsdir", "left.py"), "w") as f:
+        f.write("from nsdir import right\nvalue = 1\n")
+    with open(os.path.join(d, "nsdir", "right.py"), "w") as f:
+        f.write("from nsdir import left\nvalue = 2\n")
+    with open(os.path.join(d, "entry.py"), "w") as f:
+        f.write("import nsdir.left\n")
+    rc, data, err = lib.analyze_json(d, ["--select", "deps"])
+    try:
+        cd = data["system"]["DependencyAnalysis"]["CircularDependencies"] or {}
+    except Exception:
+        ck.broken_ties.append("e2e namespace project: no report (rc=%s) %s" % (rc, err[-200:]))
+        return
+    got = sorted(sorted(c["Modules"]) for c in (cd.get("CircularDependencies") or []))
+    want = [["nsdir.left", "nsdir.right"]]
+    replay = {"kind": "e2e-namespace", "dir": d, "analyze_cycles": got}
+    if got != want:
+        ck.violation("`pyscn analyze` reports cycles %s for two modules of a namespace package that import each other (expected %s)" % (got, want), replay)
+        return
+    rc2, out2, err2 = lib.pyscn(["check", "--select", "deps", "."], d)
+    lines = re.findall(r"circular dependency detected: (.*)", out2 + err2)
+    chk = sorted(sorted(x.strip() for x in l.split("->")) for l in lines)
+    if chk != want or rc2 == 0:
+        ent = ck.match_known({"kind": "e2e-namespace", "check_misses_cycle": chk == [] and rc2 == 0})
+        if ent:
+            ck.known_finding(ent)
+        else:
+            ck.violation("`pyscn check --select deps` lists cycles %s (exit %d), `pyscn analyze` lists %s" % (chk, rc2, got), replay)
 
 
 def main(tier):
@@ -482,6 +582,7 @@ def main(tier):
     # ---- part C: command line --------------------------------------------------------------
     e2e = e2e_projects(ck, rng, 24 if thorough else 8)
     graphs += e2e
+    namespace_cycle(ck)
     lib.log("C11: cli projects done at %.1fs" % (__import__("time").time() - ck.t0))
     n_eval += big_graphs(ck, graphs)
     dist.update({"boundary_graphs": len(boundary_graphs()), "random_graphs_upto_60": n_big, "cli_projects": len(e2e)})
@@ -496,7 +597,9 @@ def main(tier):
                 + (", every digraph on 5 modules without self-imports" if thorough else "") +
                 ", planted/uniform random digraphs up to 60 modules (nested cycles, chords, back edges between components, "
                 "self-imports, duplicate and external imports, hubs with fan-in 10..12), one cycle of each size 2..12 around the "
-                "severity thresholds, generated Python projects through `pyscn analyze --json --select deps` and `pyscn check`. "
+                "severity thresholds, generated Python projects through `pyscn analyze --json --select deps` and `pyscn check` (also --max-cycles at the "
+                "number of cycles and next to it, --allow-circular-deps, a full analyze, the suggestions derived from the cycles, a cycle inside "
+                "a namespace package). "
                 "distinct_nontrivial = graphs with at least one cycle",
         "input_distribution": dict(dist, distinct_small_partitions=len(ck.stats["distinct_codes"]), largest_cycle_seen=ck.stats["max_cycle"],
                                    severities_seen=sorted(ck.stats["sev_seen"])),
